@@ -55,6 +55,30 @@ Theorem C24_oracle_latest_sound : forall f l obs,
   end.
 Proof. exact oracle_latest_sound. Qed.
 
+Theorem C24_oracle_findall_sound : forall f l obs,
+  check_C24 (KFindAll f l obs) = true -> Permutation obs (map sn_id (find_all f l)).
+Proof. exact oracle_findall_sound. Qed.
+
+Theorem C24_oracle_group_sound : forall o l obs,
+  check_C24 (KGroup o l obs) = true ->
+  Permutation (concat (map snd obs)) (map sn_id l)
+  /\ (forall k ids, In (k, ids) obs ->
+        ids <> [] /\ forall i, In i ids -> exists s, lookup i l = Some s /\ key_of o s = k)
+  /\ distinct_keys (map fst obs) = true.
+Proof. exact oracle_group_sound. Qed.
+
+(* FindAll with explicit snapshot arguments and no 'latest': exactly the resolvable plain ids, each
+   once, in order of first mention *)
+Theorem C24_find_ids_no_latest : forall f l args,
+  has_latest args = false ->
+  snaps_of (find_ids f l args) = dedup_from [] (plain_ids args)
+  /\ NoDup (snaps_of (find_ids f l args))
+  /\ forall i, In i (snaps_of (find_ids f l args)) <-> In i (plain_ids args).
+Proof. exact find_ids_no_latest. Qed.
+
+Print Assumptions C24_find_ids_no_latest.
+Print Assumptions C24_oracle_findall_sound.
+Print Assumptions C24_oracle_group_sound.
 Print Assumptions C24_matches_spec.
 Print Assumptions C24_has_tags_spec.
 Print Assumptions C24_filter_exact.
